@@ -20,7 +20,7 @@ type frameItem struct {
 
 func (u *Unit) frameItems(fr *frame) ([]frameItem, bool) {
 	fc := u.fc
-	if fc == nil || u.lit != nil {
+	if fc == nil || u.lit != nil || fc.AssumeEnsures {
 		return nil, false
 	}
 	if !fc.Pure && len(fr.spec.Modifies) == 0 {
